@@ -37,6 +37,11 @@ def sweep_impl(rep, tier, seed):
             rep.case(("mf", n, kind))
             try:
                 mf = MatchedFilter(x, temp_kind=kind, nbins_max=nbmax)
+            except ValueError as exc:
+                if "is larger than the data size" in str(exc):
+                    continue  # documented rejection: a template of the bank does not fit the series (not a valid request)
+                rep.fail("MatchedFilter raised for a valid series", function="core/kernels.py::convolve_templates", input=inp, observed=repr(exc)[:160])
+                continue
             except Exception as exc:  # noqa: BLE001
                 rep.fail("MatchedFilter raised for a valid series", function="core/kernels.py::convolve_templates", input=inp, observed=repr(exc)[:160])
                 continue
